@@ -122,9 +122,16 @@ def negoDiffers (v : ObsView) (b : ObsNego) : Option String :=
 
 /-- the property on one observation: `some (tag, reason)` when it fails -/
 def judgeObs (panic : Bool) (cv sv : Option ObsView) (cDone sDone : Bool) (base : Option ObsNego)
-    (alteredAccepted : Option String := none) : Option (String × String) :=
+    (alteredAccepted : Option String := none) (injectedTaken : Option String := none) : Option (String × String) :=
   if panic then some ("panic", "an endpoint panicked") else
   if cDone && sDone then
+    -- both completed although a handshake message / change-cipher-spec signal that the peer never
+    -- sent was put into the byte stream in front of items the reader still had to take: on a
+    -- stream every item delivered is taken in order (only a datagram endpoint may discard), so the
+    -- items that endpoint took are not, item for item, those the other sent
+    match injectedTaken with
+    | some what => some ("injected-accepted", s!"both completed although {what} was injected in transit before the end of the reader's handshake")
+    | none =>
     -- both completed although an authenticated item (handshake message, change-cipher-spec signal)
     -- was altered in transit, or removed, and the sender never wrote another copy of it: what was
     -- accepted is not byte for byte what was sent (`what` says which item and what happened to it)
